@@ -573,6 +573,15 @@ impl Conv2dHelper {
 
 }
 
+/// Verification hook (feature `verif` only): read access to the blocks chosen by [Conv2dHelper::new].
+#[cfg(feature = "verif")]
+impl Conv2dHelper {
+    /// `[batch_block, image_height_block, image_width_block, input_channel_block, output_channel_block]`
+    pub fn verif_blocks(&self) -> [usize; 5] {
+        [self.batch_block, self.image_height_block, self.image_width_block, self.input_channel_block, self.output_channel_block]
+    }
+}
+
 #[cfg(test)]
 mod tests {
 
